@@ -219,7 +219,7 @@ impl Property for C02 {
     fn cases(&self, tier: Tier) -> u64 {
         match tier {
             Tier::Quick => 4_000,
-            Tier::Thorough => 120_000,
+            Tier::Thorough => 60_000,
         }
     }
     fn gen(&self, cs: u64, _tier: Tier, _ctx: &ExecCtx) -> Value {
